@@ -2,6 +2,7 @@ use crate::engine::Check;
 
 pub mod c03;
 pub mod c04;
+pub mod c05;
 pub mod c09;
 pub mod c10;
 pub mod c11;
@@ -13,7 +14,7 @@ pub mod c18;
 pub mod c19;
 
 pub fn all() -> Vec<Box<dyn Check>> {
-    vec![Box::new(c03::C03), Box::new(c04::C04), Box::new(c09::C09), Box::new(c10::C10), Box::new(c11::C11), Box::new(c12::C12), Box::new(c14::C14), Box::new(c15::C15), Box::new(c16::C16),Box::new(c18::C18), Box::new(c19::C19)]
+    vec![Box::new(c03::C03), Box::new(c04::C04), Box::new(c05::C05), Box::new(c09::C09), Box::new(c10::C10), Box::new(c11::C11), Box::new(c12::C12), Box::new(c14::C14), Box::new(c15::C15), Box::new(c16::C16),Box::new(c18::C18), Box::new(c19::C19)]
 }
 
 pub fn by_id(id: &str) -> Option<Box<dyn Check>> {
